@@ -21,7 +21,6 @@ class Exec(StmtMixin):
         StmtMixin.__init__(self, contract, pid)
         self.module = source.module(contract.module)
         self.fnode = self.module.func(contract.fname)
-        self.axioms = []
 
     def add_axiom(self, t):
         """Instance of a spec-function definition (a valid fact). Attached to the path on
@@ -63,7 +62,12 @@ class Exec(StmtMixin):
                 else:
                     st.env["cls"] = V(PYOBJ, PyThing("selfcls", name=c.fname.split(".")[0]))
                 continue
-            if a in declared:
+            if a in declared and isinstance(declared[a], C.Sink):
+                sk = declared[a]
+                st.env[a] = V(PYOBJ, PyThing("sink", ghost=sk.ghost))
+                lty = List(sk.elem)
+                st.ghost[sk.ghost] = self.empty_container(lty)
+            elif a in declared:
                 ty = declared[a]
                 v = ty.named("p_" + a)
                 self.assume_valid(st, v)
@@ -100,6 +104,13 @@ class Exec(StmtMixin):
         self.cover(st.copy(), "precondition-satisfiable", self.fnode.lineno)
         if not c.verify_body:
             return
+        if c.pure:
+            # `pure` lets callers treat the result as a function of the arguments: check it syntactically
+            for n in ast.walk(self.fnode):
+                if isinstance(n, ast.Attribute) and not (isinstance(n.value, ast.Name) and n.value.id == "cls"):
+                    raise Unsupported("%s is declared pure but reads an attribute (line %s)" % (c.qual, n.lineno))
+                if isinstance(n, (ast.Call, ast.Await, ast.Yield, ast.Global, ast.Nonlocal)):
+                    raise Unsupported("%s is declared pure but contains %s (line %s)" % (c.qual, type(n).__name__, n.lineno))
         self.raises_stack.append([])
         outs = self.exec_block(self.fnode.body, st)
         outs = outs + self.raises_stack.pop()
@@ -133,7 +144,10 @@ class Exec(StmtMixin):
                 raise Unsupported("%s returns %s where the contract says %s" % (c.qual, res.ty, c.ret))
             res = cv
         line = self.fnode.lineno
-        extra = {"result": res}
+        # in a postcondition a parameter name denotes the value the caller passed (locals,
+        # including re-assigned parameters, are not visible); heap and ghosts are the final ones
+        extra = dict(self.entry.env)
+        extra["result"] = res
         for lbl, exc, when, ens, exact in c.raises_:
             if exact and when:
                 g = z3.Not(self.spec_bool(when, self.entry, old=self.entry))
@@ -161,7 +175,7 @@ class Exec(StmtMixin):
             m = self.exc_is(exc.t, en)
             s2 = st.copy().assume(m)
             for elbl, e in ens:
-                g = self.spec_bool(e, s2, old=self.entry)
+                g = self.spec_bool(e, s2, extra=dict(self.entry.env), old=self.entry)
                 self.oblige(s2, "raises", "%s:%s" % (lbl, elbl), g, line, assume=False)
 
 
